@@ -383,25 +383,27 @@ def _ndiff(x, base):
     return sum(1 for p in _PART_COQ if x.get(p) != base.get(p))
 
 
-def _base_for(xa, xb):
-    """the named dataset closest to both sides; a new one is defined when none is close (a new base spec)"""
+def _base_for(case, xa, xb):
+    """the named dataset closest to both sides.  A dataset is named (defined once in the shard header) when the
+    generator presents it as the plain build of a new base description (tag same-build)."""
     global COQ_HEADER
+    if case.get('tag') == 'same-build' and not any(x == xb for x, _ in _BASES):
+        name = 'B_' + hashlib.sha256(json.dumps(xb, sort_keys=True).encode()).hexdigest()[:12]
+        _BASES.append((xb, name))
+        COQ_HEADER = COQ_HEADER + 'Definition %s : MCompare.dataset := %s.\n' % (name, _cdataset(xb))
     best = None
     for x, name in _BASES:
         cost = _ndiff(xa, x) + _ndiff(xb, x)
         if best is None or cost < best[0]:
             best = (cost, x, name)
-    if best is not None and best[0] <= 20:
-        return best[1], best[2]
-    name = 'B_' + hashlib.sha256(json.dumps(xb, sort_keys=True).encode()).hexdigest()[:12]
-    _BASES.append((xb, name))
-    COQ_HEADER = COQ_HEADER + 'Definition %s : MCompare.dataset := %s.\n' % (name, _cdataset(xb))
-    return xb, name
+    if best is None:
+        return {}, '[]'
+    return best[1], best[2]
 
 
 def encode(case, obs):
     xa, xb = obs['xa'], obs['xb']
-    base, name = _base_for(xa, xb)
+    base, name = _base_for(case, xa, xb)
     return '{| c_base := %s; c_da := %s; c_db := %s; o_ab := %s; o_ba := %s |}' % (
         name, _cdiff(xa, base), _cdiff(xb, base), kv.cbool(obs['ab']), kv.cbool(obs['ba']))
 
@@ -856,7 +858,9 @@ def mutations(spec, rng):
 
 
 def gen_cases(rng, tier):
-    n_bases = 4 if tier == 'quick' else 24
+    global SHARD_SIZE
+    n_bases = 4 if tier == 'quick' else 16
+    SHARD_SIZE = 60 if tier == 'quick' else 240      # the shard header carries the named base datasets
     cases = []
     for bi in range(n_bases):
         spec = gen_spec(rng, unicode_ids=(bi % 3 == 2), cols=(6 if bi % 2 == 0 else 3))
